@@ -2,14 +2,64 @@
    "fix: File.Update kept a wrapped uint32 origin key and skipped re-inserting the interval when the last
    deleted node starts after pos" (F2).  Exactly two places differ from Model.update:
    the "insert our new interval" condition tests origin.Key == uint32(pos) instead of >=, and the shifted
-   origin key is stored back into the uint32 field (so it wraps below zero) and compared as uint32.
-   Kept to document the repaired defect: C03_update_refuted_before_fix evaluates the two witnesses. *)
+   origin key is stored back into the uint32 field (so it wraps below zero) and is compared as uint32.
+   Kept to document the repaired defect: update_refuted_before_fix evaluates the two witnesses. *)
 From Coq Require Import List ZArith Bool.
 Import ListNotations.
 From Herc Require Import File.Model File.Spec.
 Open Scope Z_scope.
 
-(* ---------- Update ---------- *)
+Definition prepare_unrepaired (t pos ins del : Z) (origin1 : node) (L1 : list node) (r : node) (right_rest : list node)
+  : list node * list node * node :=
+  if (ins >? 0) && (negb (snd origin1 =? u32 t) || (fst origin1 =? u32 pos)) then       (* before F2: == *)
+    if (snd r =? u32 t) && (fst r - del =? pos) then
+      match last_opt L1 with
+      | Some p =>
+        if negb (snd p =? u32 t)
+        then (L1 ++ [(u32 pos, snd r)], right_rest, (fst origin1, u32 t))
+        else (L1, right_rest, (fst origin1, u32 t))
+      | None => ([(u32 pos, snd r)], right_rest, (fst origin1, u32 t))
+      end
+    else (L1 ++ [(u32 pos, u32 t)], r :: right_rest, origin1)
+  else (L1, r :: right_rest, origin1).
+
+Definition finish_unrepaired (t pos ins del : Z) (prevOrigin : node) (previous : option node)
+           (before after : list node) (origin2 : node) : list node :=
+  let delta := ins - del in
+  let s3 := if delta =? 0 then before ++ after else before ++ shift32 delta after in
+  (* before F2: origin.Key = uint32(int(origin.Key) + delta) *)
+  let okey := if negb (delta =? 0) && (fst origin2 >? u32 pos) then u32 (fst origin2 + delta) else fst origin2 in
+  if ins >? 0 then
+    if negb (snd origin2 =? u32 t) then insert (u32 (pos + ins)) (snd origin2) s3
+    else if pos =? 0 then insert (u32 pos) (u32 t) s3 else s3
+  else
+    (* before F2: uint32(pos) > origin.Key, uint32(pos) == origin.Key *)
+    if ((u32 pos >? okey) && (match previous with Some p => negb (snd p =? snd origin2) | None => false end))
+       || ((u32 pos =? okey) && negb (snd origin2 =? snd prevOrigin)) || (pos =? 0)
+    then insert (u32 pos) (snd origin2) s3 else s3.
+
+Definition update_body_unrepaired (t pos ins del : Z) (L : list node) (origin : node) (rest : list node)
+  : result (list node * list delta_rec) :=
+  let prevOrigin := match last_opt L with Some p => p | None => origin end in
+  match (if ins >? 0 then update_time t t ins else Ok []) with
+  | Panic c => Panic c
+  | Ok reps0 =>
+    if del =? 0 then Ok (ins_only t pos ins L origin rest, reps0)
+    else
+      match del_loop t pos ins del origin prevOrigin L origin rest reps0 with
+      | Panic c => Panic c
+      | Ok (origin1, L1, right1, reps1) =>
+        match right1 with
+        | [] => Panic PNil
+        | r :: right_rest =>
+          let condA := (ins >? 0) && (negb (snd origin1 =? u32 t) || (fst origin1 =? u32 pos)) in
+          let '(before, after, origin2) := prepare_unrepaired t pos ins del origin1 L1 r right_rest in
+          let previous := if condA then None else last_opt L1 in
+          Ok (finish_unrepaired t pos ins del prevOrigin previous before after origin2, reps1)
+        end
+      end
+  end.
+
 Definition update_unrepaired (t pos ins del : Z) (s : list node) : result (list node * list delta_rec) :=
   if t <? 0 then Panic PTimeNeg else
   if t >=? MaxU32 then Panic PTimeBig else
@@ -21,69 +71,14 @@ Definition update_unrepaired (t pos ins del : Z) (s : list node) : result (list 
   match s with
   | [] => Panic PNil
   | n0 :: tl =>
-  (* tree.Len() < 2 && tree.Min().Item().Key != 0 *)
   if (match tl with [] => true | _ => false end) && negb (fst n0 =? 0) then Panic PInvalidTree else
   if u32 pos >? klast 0 s then Panic PAfterEnd else
-  if u32 pos <? fst n0 then Panic PNil (* FindLE gives the negative limit: *iter.Item() *) else
+  if u32 pos <? fst n0 then Panic PNil else
   match find_le (u32 pos) [] s with
   | None => Panic PNil
-  | Some (L, origin, rest) =>
-    let prevOrigin := match last_opt L with Some p => p | None => origin end in
-    match (if ins >? 0 then update_time t t ins else Ok []) with
-    | Panic c => Panic c
-    | Ok reps0 =>
-    if del =? 0 then
-      (* simple case with insertions only *)
-      let adv := (fst origin <? u32 pos)
-                 || ((snd origin =? u32 t) && ((pos =? 0) || (u32 pos =? fst origin))) in
-      let base := if adv then L ++ origin :: shift32 (u32 ins) rest
-                  else L ++ shift32 (u32 ins) (origin :: rest) in
-      let s1 := if negb (snd origin =? u32 t) then
-                  let s2 := insert (u32 pos) (u32 t) base in
-                  if fst origin <? u32 pos then insert (u32 (pos + ins)) (snd origin) s2 else s2
-                else base in
-      Ok (s1, reps0)
-    else
-      match del_loop t pos ins del origin prevOrigin L origin rest reps0 with
-      | Panic c => Panic c
-      | Ok (origin1, L1, right1, reps1) =>
-        match right1 with
-        | [] => Panic PNil
-        | r :: right_rest =>
-          (* prepare for the keys update *)
-          let condA := (ins >? 0) && (negb (snd origin1 =? u32 t) || (fst origin1 =? u32 pos)) in   (* before F2: == *)
-          let '(before, after, origin2) :=
-            if condA then
-              if (snd r =? u32 t) && (fst r - del =? pos) then
-                match last_opt L1 with
-                | Some p =>
-                  if negb (snd p =? u32 t)
-                  then (L1 ++ [(u32 pos, snd r)], right_rest, (fst origin1, u32 t)) (* iter.Item().Key = uint32(pos) *)
-                  else (L1, right_rest, (fst origin1, u32 t))                       (* delete iter; iter = prev *)
-                | None => ([(u32 pos, snd r)], right_rest, (fst origin1, u32 t))    (* prev.NegativeLimit() *)
-                end
-              else (L1 ++ [(u32 pos, u32 t)], right1, origin1)                      (* _, iter = tree.Insert(pos, time) *)
-            else (L1, right1, origin1) in                                          (* iter = iter.Prev() *)
-          let previous := if condA then None else last_opt L1 in
-          (* update the keys of all subsequent nodes *)
-          let delta := ins - del in
-          let s3 := if delta =? 0 then before ++ after else before ++ shift32 delta after in
-          let okey := if negb (delta =? 0) && (fst origin2 >? u32 pos) then u32 (fst origin2 + delta) else fst origin2 in   (* before F2: origin.Key = uint32(int(origin.Key) + delta) *)
-          let s4 :=
-            if ins >? 0 then
-              if negb (snd origin2 =? u32 t) then insert (u32 (pos + ins)) (snd origin2) s3
-              else if pos =? 0 then insert (u32 pos) (u32 t) s3 else s3
-            else
-              if ((u32 pos >? okey) && (match previous with Some p => negb (snd p =? snd origin2) | None => false end))
-                 || ((u32 pos =? okey) && negb (snd origin2 =? snd prevOrigin)) || (pos =? 0)
-              then insert (u32 pos) (snd origin2) s3 else s3 in
-          Ok (s4, reps1)
-        end
-      end
-    end
+  | Some (L, origin, rest) => update_body_unrepaired t pos ins del L origin rest
   end
   end.
-
 
 Fixpoint run_unrepaired (ops : list op) (s : list node) : option (list node) :=
   match ops with
